@@ -39,10 +39,16 @@ func (self *Interpreter) callFunc(span errors.Span, val value.Value, args []ast.
 			self.switchModule(fn.Module)
 		}
 
+		// A function sees the globals of its module and its own variables, never the locals of its caller
+		// (lexical scoping): it runs on a scope stack of its own, which starts at the module's global scope.
+		calleeModule := self.currentModule
+		callerScopes := calleeModule.scopes
+		calleeModule.scopes = append(make([]map[string]*value.Value, 0, 8), callerScopes[0])
+
 		self.callStackSize++
 		self.pushScope()
 		defer func() {
-			self.popScope()
+			calleeModule.scopes = callerScopes
 			self.callStackSize--
 			if previousModule != nil {
 				self.switchModule(*previousModule)
